@@ -304,6 +304,10 @@ JudgeTransfer(tr, T, ev) ==
                       /\ ((\A i \in 1..Len(x) : ~ValidWell(T.lw[a.src].g, x[i].s)) \/ (\A i \in 1..Len(x) : ~ValidWell(T.lw[a.dst].g, x[i].d)))
                       /\ (\A i \in 1..Len(x) : x[i].v > 0),
        ~ok /\ ev.recs = <<>>),
+    \* ... and so does a transfer that names one unknown well among known ones, on either side, also within one labware
+    Cl("C08.anybad", T.dev # "base" /\ trp.ok /\ Len(x) >= 1 /\ ValidMode(a.pby) /\ WashValid(a.wash) /\ KwValid(a.kw) /\ a.labelok /\ ~neg
+                     /\ (\E i \in 1..Len(x) : ~ValidWell(T.lw[a.src].g, x[i].s) \/ ~ValidWell(T.lw[a.dst].g, x[i].d)),
+       ~ok /\ ev.recs = <<>> /\ post.vol = vol),
     Cl("C07.accept", T.dev # "base" /\ valid /\ sized /\ refok /\ ref.out = "ok" /\ orderfree, ok),
     \* never refused for its size, with whatever exception (the volumes fit the labware: the reference run succeeds)
     Cl("C06.neverrefused", T.dev # "base" /\ valid /\ T.autosplit /\ refok /\ ref.out = "ok" /\ orderfree, ok),
@@ -323,6 +327,13 @@ JudgeTransfer(tr, T, ev) ==
     \* every requested volume, however small, leaves its source and reaches its destination
     Cl("C07.flowvol", T.dev # "base" /\ valid /\ ok, post.vol = ApplyTriples(T, a, x, vol)),
     Cl("C06.steps", F.records /\ valid, StepsOK(T, body)),
+    \* a volume of zero adds nothing, with or without splitting: every record of the body is an aspirate, its dispense, the
+    \* tip action of such a pair, or a break - and there are exactly as many tip actions as pairs (none for "reuse")
+    Cl("C06.zero", F.records /\ valid /\ ok,
+       LET tips == {i \in 1..Len(body) : body[i].t \in {"W", "F"}} IN
+       /\ Cardinality(tips) = Cardinality(PairStarts(body)) * Len(WashRecs(T, a.wash))
+       /\ Cardinality(PairStarts(body)) = Cardinality({i \in 1..Len(body) : body[i].t = "A"})
+       /\ (~T.autosplit => Cardinality(PairStarts(body)) = Cardinality({i \in 1..Len(x) : x[i].v > 0}))),
     Cl("C06.count", F.records /\ valid /\ ok /\ T.autosplit,
        Cardinality(PairStarts(body)) = SumSeq([i \in 1..Len(x) |-> NSteps(x[i].v, T.wlmax)])),
     Cl("C07.breaks", F.records /\ valid /\ ok /\ T.autosplit /\ SplitCols(x, TransferSide(T, a), T.wlmax) # {},
@@ -395,6 +406,8 @@ JudgeDistribute(tr, T, ev) ==
     Cl("C04.accept", T.dev # "base" /\ valid /\ a.vol <= T.wlmax /\ ref.out = "ok", ok),
     Cl("C02.outcome", T.dev # "base" /\ valid /\ ref.out \in {"overflow", "underflow"}, ev.out = ref.out),
     Cl("C03.failclean", T.dev # "base" /\ valid /\ ev.out \in {"overflow", "underflow"}, rs = <<>>),
+    \* the trough column that cannot give what all destinations need is the offending well: it is left as it was
+    Cl("C02.offender", T.dev # "base" /\ valid /\ ref.out = "underflow" /\ ev.out = "underflow", post.vol[ks] = vol[ks]),
     Cl("C01.rcount", F.records /\ T.dev # "base" /\ valid /\ ok, Len(rs) = 1 /\ Len(Body(ev.recs)) = 1),
     Cl("C01.rsrcrack", F.records /\ T.dev # "base" /\ valid /\ ok /\ Len(rs) = 1, rs[1].srack = T.lw[ks].name),
     Cl("C01.rsrc", F.records /\ T.dev # "base" /\ valid /\ ok /\ Len(rs) = 1, (rs[1].s1)..(rs[1].s2) = sps),
